@@ -8,9 +8,9 @@ from harness.core import enc_str, dec_str
 
 PROPERTY = "C15"
 READY = True
-THEOREMS = ["C15.clauses_ok", "C15.consts_ok", "C15.only_rejections", "C15.selects_eval", "C15.selects",
+THEOREMS = ["C15.clauses_ok", "C15.consts_ok", "C15.option_keys", "C15.only_rejections", "C15.selects_eval", "C15.selects",
             "C15.placeholders", "C15.placeholders_in_order", "C15.values_only_bound", "C15.noninterference", "C15.none_ignored",
-            "C15.kwargs_order", "C15.in_semantics", "C15.returns_exactly", "C15.satisfied_iff", "C15.methods"]
+            "C15.kwargs_order", "C15.in_semantics", "C15.returns_exactly", "C15.value_order", "C15.satisfied_iff", "C15.methods"]
 
 
 # ------------------------------------------------------------------ translator
@@ -142,6 +142,27 @@ def translate(repo):
     if _kind(marks[0].body) != "PLACEHOLDER_TYPE_PERCENT_S" or _kind(marks[0].orelse) != "PLACEHOLDER_TYPE_QUESTION":
         raise ValueError("flavour detection does not map the marker to %s-placeholders and everything else to ?")
     marker = marks[0].test.left.value
+    # --- the keyword arguments that are options, not filters: exactly the constant-keyed kwargs.pop(...) calls
+    pops, other_kw_uses = {}, 0
+    for n in ast.walk(ex):
+        if isinstance(n, ast.Call) and isinstance(n.func, ast.Attribute) and isinstance(n.func.value, ast.Name) \
+                and n.func.value.id == "kwargs" and n.func.attr in ("pop", "popitem", "clear", "update", "setdefault",
+                                                                    "__delitem__", "__setitem__"):
+            if n.func.attr == "pop" and len(n.args) == 2 and isinstance(n.args[0], ast.Constant) \
+                    and isinstance(n.args[0].value, str) and isinstance(n.args[1], ast.Attribute):
+                pops[n.args[1].attr] = n.args[0].value
+            else:
+                other_kw_uses += 1
+        if isinstance(n, (ast.Delete, ast.Assign, ast.AugAssign)):
+            tg = n.targets if isinstance(n, (ast.Delete, ast.Assign)) else [n.target]
+            for t in tg:
+                if isinstance(t, ast.Subscript) and isinstance(t.value, ast.Name) and t.value.id == "kwargs":
+                    other_kw_uses += 1
+                if isinstance(t, ast.Name) and t.id == "kwargs":
+                    other_kw_uses += 1
+    if other_kw_uses or set(pops) != {"default_order_by", "default_as_scalars"}:
+        raise ValueError("_execute does not take exactly two options out of kwargs by constant-keyed kwargs.pop "
+                         "(found %r, %d other modification(s) of kwargs)" % (pops, other_kw_uses))
 
     def table(name):
         return "[" + ",\n   ".join("(%s, %s)" % (_lean_str(k), _lean_str(v)) for k, v in tables[name].items()) + "]"
@@ -169,6 +190,9 @@ def translate(repo):
         "def andSep : List Char := %s" % _lean_str(and_sep),
         "def groupPfx : List Char := %s" % _lean_str(group_pfx),
         "def orderPfx : List Char := %s" % _lean_str(order_pfx),
+        "/-- the two keyword arguments that `_execute` takes out of kwargs (every other one is a filter) -/",
+        "def orderKey : List Char := %s" % _lean_str(pops["default_order_by"]),
+        "def scalarsKey : List Char := %s" % _lean_str(pops["default_as_scalars"]),
         "/-- a connection whose type name contains this gets %s-placeholders -/",
         "def mysqlMarker : List Char := %s" % _lean_str(marker),
         "end Gen.C15", ""]
@@ -227,21 +251,40 @@ def _enc_call(call):
     return out + _enc_kw(call["kw"])
 
 
+def _enc_order(o):
+    out = [str(len(o))]
+    for col, desc in o:
+        out += [enc_str(col), "1" if desc else "0"]
+    return out
+
+
+def cols_of(s):
+    """column expressions of the table as the conditions write them (id first)"""
+    return [s["pfx"] + n for n in ["id"] + list(s["names"])]
+
+
+def eff_order(s):
+    """the ORDER BY in effect: `_order_by` of the call (None cancels the default), else the default"""
+    c = s["corder"]
+    if c is None:
+        return s["dorder"]
+    return c[1] if c[0] == "S" else None
+
+
 def _enc_scen(s):
     out = [str(s["v"]), str(s["pct"]), enc_str(s["from"]), "~" if s["group"] is None else enc_str(s["group"])]
-    if s["order"] is None:
-        out.append("~")
-    else:
-        out.append(str(len(s["order"])))
-        for col, desc in s["order"]:
-            out += [enc_str(col), "1" if desc else "0"]
+    out += ["~"] if s["dorder"] is None else _enc_order(s["dorder"])
+    c = s["corder"]
+    out += ["~"] if c is None else (["V", _enc_value(c[1])] if c[0] == "V" else ["S"] + _enc_order(c[1]))
+    out += ["~" if s["scal"] is None else str(int(s["scal"]))]
+    out += [enc_str(s["pfx"]), str(len(s["names"]))] + [enc_str(n) for n in s["names"]]
     return out + _enc_call(s["call"])
 
 
 def enc_line(cmd, s):
     out = [cmd] + _enc_scen(s)
     if cmd == "ids":
-        out += [s["method"], str(len(s["cols"]))] + [enc_str(c) for c in s["cols"]] + [str(len(s["rows"]))]
+        out += [s["method"], str(len(s["rows"]))]
         for r in s["rows"]:
             out += [_enc_value(v) for v in r]
     return " ".join(out)
@@ -307,6 +350,11 @@ def _dec_cond(ts):
     return ("O", cs, _dec_kw(ts))
 
 
+def _dec_order(ts):
+    n = int(ts.next())
+    return [(dec_str(ts.next()), ts.next() == "1") for _ in range(n)]
+
+
 def dec_line(line):
     ts = _Toks(line.split())
     cmd = ts.next()
@@ -315,10 +363,15 @@ def dec_line(line):
     s["group"] = None if g == "~" else dec_str(g)
     if ts.peek() == "~":
         ts.next()
-        s["order"] = None
+        s["dorder"] = None
     else:
-        n = int(ts.next())
-        s["order"] = [(dec_str(ts.next()), ts.next() == "1") for _ in range(n)]
+        s["dorder"] = _dec_order(ts)
+    t = ts.next()
+    s["corder"] = None if t == "~" else (("V", _dec_value(ts.next())) if t == "V" else ("S", _dec_order(ts)))
+    t = ts.next()
+    s["scal"] = None if t == "~" else int(t)
+    s["pfx"] = dec_str(ts.next())
+    s["names"] = [dec_str(ts.next()) for _ in range(int(ts.next()))]
     n = int(ts.next())
     args = []
     for _ in range(n):
@@ -330,9 +383,8 @@ def dec_line(line):
     s["call"] = {"args": args, "kw": _dec_kw(ts)}
     if cmd == "ids":
         s["method"] = ts.next()
-        nc = int(ts.next())
-        s["cols"] = [dec_str(ts.next()) for _ in range(nc)]
         nr = int(ts.next())
+        nc = len(s["names"]) + 1
         s["rows"] = [[_dec_value(ts.next()) for _ in range(nc)] for _ in range(nr)]
     assert ts.done(), "trailing tokens"
     return cmd, s
@@ -450,77 +502,83 @@ class _MysqlLikeConn:
 
 _MysqlLikeConn.__module__ = "mysql.connector.connection"
 
-_BASE_COLS = ["id", "a", "b", "c"]
-
-
-def _open_db(rows):
+def _open_db(names, rows):
     conn = sqlite3.connect(":memory:")
-    conn.execute("CREATE TABLE t(id INTEGER PRIMARY KEY, a, b, c)")     # a, b, c: no affinity
+    conn.execute("CREATE TABLE t(id INTEGER PRIMARY KEY, %s)" % ", ".join(names))     # the other columns: no affinity
     if rows:
-        conn.executemany("INSERT INTO t VALUES (?,?,?,?)", rows)
+        conn.executemany("INSERT INTO t VALUES (%s)" % ",".join("?" * (len(names) + 1)), rows)
     return conn
 
 
-def _execute(s, rows=None, method="list"):
-    """runs the real code; returns (result, log) or raises what the real code raises"""
+def _order_text(o):
+    return ", ".join(c + (" DESC" if d else "") for c, d in o)
+
+
+def _execute(s, rows=None, method="list", cache=None):
+    """runs the real code; returns (result, log) or raises what the real code raises.
+    cache: SqlMethod objects of the case so far - the lines of one case reuse one object (its record type is
+    initialised by the first call; later calls must not depend on that)"""
     mtd_sql, mcaller_sql = _mods()
     v = s["v"]
     call = s["call"]
     args = [None if c is None else _py_cond(c, v) for c in call["args"]]
     kw = {k: _py_arg(a, v) for k, a in call["kw"]}
-    order_text = None if s["order"] is None else ", ".join(c + (" DESC" if d else "") for c, d in s["order"])
     if s["pct"]:
         conn, raw = _MysqlLikeConn(), None
     else:
-        raw = _open_db(rows or [])
+        raw = _open_db(s["names"], rows or [])
         conn = _RecConn(raw)
     try:
         ctor = {}
         if s["group"] is not None:
             ctor["group_by"] = s["group"]
-        scalars = bool(v & 1)
-        if order_text is not None:
-            if (v >> 1) & 1:
-                ctor["order_by"] = order_text
-                if (v >> 7) & 1:
-                    kw["_order_by"] = order_text
-                    ctor["order_by"] = "id DESC, a"       # overridden by the call
-            else:
-                kw["_order_by"] = order_text
-        elif (v >> 7) & 1:
-            kw["_order_by"] = None
+        if s["dorder"] is not None:
+            ctor["order_by"] = _order_text(s["dorder"])
+        if s["corder"] is not None:
+            kw["_order_by"] = s["corder"][1] if s["corder"][0] == "V" else _order_text(s["corder"][1])
         if (v >> 8) & 1:
-            ctor["as_scalars"] = scalars
+            ctor["as_scalars"] = bool(v & 1)
+        if s["scal"] is not None:
+            kw["_as_scalars"] = bool(s["scal"]) if (v >> 1) & 1 else s["scal"]
+        scalars = bool(s["scal"]) if s["scal"] is not None else bool(ctor.get("as_scalars", False))
+        key = (s["from"], tuple(sorted(ctor.items())))
+        plain = list(s["names"]) == ["a", "b", "c"]            # SqlMethodT builds a table format from the field names
+        use_t = (v >> 9) & 1 and plain and "group_by" not in ctor and (
+            method == "tone_or_none" or (not scalars and "as_scalars" not in ctor and method in ("list", "one")))
+        if method == "tone_or_none" and not use_t:
+            method = "one_or_none_as_list"
+        if cache is not None and key in cache and not use_t:
+            m = cache[key]
         else:
-            kw["_as_scalars"] = scalars
-        m = mtd_sql.SqlMethod(s["from"], **ctor)
+            m = mtd_sql.SqlMethod(s["from"], **ctor)
+            if cache is not None and not use_t:
+                cache[key] = m
 
         def ident(rec):
             return rec if scalars else rec[0]
-        if method == "list":
-            if (v >> 9) & 1 and not scalars and "group_by" not in ctor:
-                kw.pop("_as_scalars", None)
-                mt = mcaller_sql.SqlMethodT(m if (v >> 2) & 1 else s["from"],
-                                            **({} if (v >> 2) & 1 else {"order_by": ctor.get("order_by")}))
+        if use_t:
+            kw.pop("_as_scalars", None)
+            m.default_as_scalars = False
+            mt = mcaller_sql.SqlMethodT(m)
+            if method == "list":
                 res = [r[0] for r in mt.list(conn, *args, **kw).r]
-            elif (v >> 2) & 1:
+            elif method == "one":
+                res = [r[0] for r in mt.one(conn, *args, **kw).r]
+            else:
+                res = [r[0] for r in mt.one_or_none(conn, *args, **kw).r]
+        elif method == "list":
+            if (v >> 2) & 1:
                 res = [ident(r) for r in m.all(conn, *args, **kw)]
             else:
                 res = [ident(r) for r in m.list(conn, *args, **kw)]
         elif method == "one":
-            if (v >> 9) & 1 and not scalars:
-                kw.pop("_as_scalars", None)
-                m.default_as_scalars = False
-                res = [r[0] for r in mcaller_sql.SqlMethodT(m).one(conn, *args, **kw).r]
-            else:
-                res = [ident(m.one(conn, *args, **kw))]
+            res = [ident(m.one(conn, *args, **kw))]
         elif method == "one_or_none":
             r = m.one_or_none(conn, *args, **kw)
             res = None if r is None else [ident(r)]
-        elif method == "tone_or_none":
-            kw.pop("_as_scalars", None)
-            m.default_as_scalars = False
-            res = [r[0] for r in mcaller_sql.SqlMethodT(m).one_or_none(conn, *args, **kw).r]
+        elif method == "one_or_none_as_list":                  # SqlMethodT.one_or_none's contract on a plain SqlMethod
+            r = m.one_or_none(conn, *args, **kw)
+            res = [] if r is None else [ident(r)]
         else:
             raise AssertionError("unknown method " + method)
         return res, conn.log
@@ -533,40 +591,35 @@ def _err(e):
     return "err " + type(e).__name__
 
 
-def _strip_prefix(s):
-    """rows are stored under the plain column names; the scenario may use qualified names"""
-    return [tuple(r) for r in s.get("rows", [])]
-
-
-def _run_line(cmd, s):
+def _run_line(cmd, s, cache=None):
     try:
-        res, log = _execute(s, _strip_prefix(s), s.get("method", "list"))
+        res, log = _execute(s, [tuple(r) for r in s.get("rows", [])], s.get("method", "list"), cache)
     except Exception as e:
         return _err(e)
     if cmd in ("sql", "params"):
         if len(log) != 1:
             return "crash %d statements executed" % len(log)
         sql, params = log[0]
-        if cmd == "sql":
-            return "ok " + enc_str(sql)
+        if cmd == "sql":                      # the number of placeholder marks in the text (C15.placeholders)
+            return "ok %d %s" % (sql.count("%" if s["pct"] else "?"), enc_str(sql))
         return " ".join(["ok"] + [_enc_value(p) if p is None or isinstance(p, (int, str)) and not isinstance(p, bool)
                                   else "X" + type(p).__name__ for p in params])
     if res is None:
         return "ok none"
-    if s["order"] is None:
+    if eff_order(s) is None:
         res = sorted(res)
     return " ".join(["ok"] + [str(i) for i in res])
 
 
 def impl(case):
-    out = []
+    out, cache = [], {}
     for line in case["lines"]:
         try:
             cmd, s = dec_line(line)
         except Exception:
             out.append("bad-op")
             continue
-        out.append(_run_line(cmd, s))
+        out.append(_run_line(cmd, s, cache))
     return out
 
 
@@ -611,6 +664,12 @@ def _cond_ok(c):
 
 def _call_ok(call):
     return all(c is None or _cond_ok(c) for c in call["args"]) and all(_leaf_ok("=", a) for _, a in call["kw"])
+
+
+def _scen_ok(s):
+    """a call the statement speaks about: well-formed conditions, `_order_by` absent, None or a text"""
+    c = s["corder"]
+    return _call_ok(s["call"]) and (c is None or c[0] == "S" or c[1] is None)
 
 
 def _sql_cmp(op, x, y):
@@ -688,19 +747,21 @@ def _cond_val(row, c):
 
 
 def _selected(s):
-    rows = [dict(zip(s["cols"], r)) for r in s["rows"]]
+    cols = cols_of(s)
+    order = eff_order(s)
+    rows = [dict(zip(cols, r)) for r in s["rows"]]
     call = s["call"]
     conds = [c for c in call["args"] if c is not None] + [("P", k, a) for k, a in call["kw"]]
     out = [r for r in rows if all(_cond_val(r, c) is True for c in conds)]
-    if s["order"] is not None:
+    if order is not None:
         def key(col):
             def f(r):
                 v = r[col]
                 return (0, 0) if v is None else ((2, v) if isinstance(v, str) else (1, v))
             return f
-        for col, desc in reversed(s["order"]):
+        for col, desc in reversed(order):
             out.sort(key=key(col), reverse=desc)
-    return [r[s["cols"][0]] for r in out]
+    return [r[cols[0]] for r in out]
 
 
 def _leaf_bindings(f, op, a):
@@ -796,9 +857,11 @@ def _mark_call(call):
 
 
 def _oracle_line(cmd, s, rep):
-    if not _call_ok(s["call"]):
+    if not _scen_ok(s):
         return None                                    # the statement says nothing about rejected input
     desc = "call %r" % (s["call"],)
+    if len(desc) > 700:
+        desc = desc[:350] + " ... " + desc[-300:]
     if cmd in ("sql", "params"):
         try:
             _, log = _execute(s)
@@ -806,7 +869,7 @@ def _oracle_line(cmd, s, rep):
             return "fails: a well-formed filter call raises %s; %s" % (type(e).__name__, desc)
         sql, params = log[0]
         ph = "%s" if s["pct"] else "?"
-        fixed = s["from"] + (s["group"] or "") + "".join(c for c, _ in (s["order"] or []))
+        fixed = s["from"] + (s["group"] or "") + "".join(c for c, _ in (eff_order(s) or []))
         if sql.count(ph) - fixed.count(ph) != len(params):
             return "placeholders: %d placeholder(s) for %d bound value(s) in %r; %s" % (
                 sql.count(ph) - fixed.count(ph), len(params), sql, desc)
@@ -833,7 +896,7 @@ def _oracle_line(cmd, s, rep):
     want = _selected(s)
     m = s["method"]
     if m == "list":
-        exp = " ".join(["ok"] + [str(i) for i in (want if s["order"] is not None else sorted(want))])
+        exp = " ".join(["ok"] + [str(i) for i in (want if eff_order(s) is not None else sorted(want))])
     elif m == "one":
         exp = "ok %d" % want[0] if len(want) == 1 else "err ValueError"
     elif m == "one_or_none":
@@ -842,7 +905,7 @@ def _oracle_line(cmd, s, rep):
         exp = "err ValueError" if len(want) > 1 else ("ok %d" % want[0] if want else "ok")
     if rep != exp:
         return "rows: %s gives '%s', the rows satisfying all conditions are '%s'; %s; table %r %r" % (
-            m, rep, exp, desc, s["cols"], s["rows"])
+            m, rep, exp, desc, cols_of(s), s["rows"] if len(str(s["rows"])) < 600 else "(%d rows)" % len(s["rows"]))
     return None
 
 
@@ -851,20 +914,48 @@ def oracle(case, replies):
         cmd, s = dec_line(line)
         msg = _oracle_line(cmd, s, rep)
         if msg is not None:
-            return msg
+            return msg if len(msg) < 1500 else msg[:900] + " ... " + msg[-500:]
     return None
 
 
 # ------------------------------------------------------------------ generators
 _INTS = [0, 1, 2, 5, -3, 10, 2 ** 63 - 1, -2 ** 63, 7]
 _TEXTS = ["", "a", "A", "ab", "aB", "a%", "a_b", "it's", "x'; DROP TABLE t;--", "%", "_", "b", '"', "?", "1", "5",
-          "é", "É", "1 OR 1=1", "NULL", "0", "a b", "?, ?", ") OR (1=1", "-3", "中", "%s", "B", "ba"]
+          "é", "É", "1 OR 1=1", "NULL", "0", "a b", "?, ?", ") OR (1=1", "-3", "中", "%s", "B", "ba", "a\\b", "\\",
+          "C:\\tmp\\x", "100\\%", "a\\_b"]
 _PATTERNS = ["a%", "%", "_", "A_", "%'%", "a\\%", "%b", "_b%", "", "%%", "%_", "5", "-_", "é", "É%", "%?%",
-             "__", "a_b", "A\\_B", "%a%b%", "it's", "%;%", "1%", "%0", "_%_", "%S", "%%s"]
+             "__", "a_b", "A\\_B", "%a%b%", "it's", "%;%", "1%", "%0", "_%_", "%S", "%%s", "C:\\tmp\\%", "%\\", "100\\%",
+             "a\\b", "\\%", "%\\%%"]
 _OPS_CMP = ["=", "!=", "<", ">", "<=", ">="]
-_FIELDS = ["a", "b", "c"]
-_FROMS = [("", "SELECT id, a, b, c FROM t"), ("", "SELECT id, a, b, c FROM t "), ("t.", "SELECT t.id, t.a, t.b, t.c FROM t"),
-          ("x.", "SELECT x.id, x.a, x.b, x.c FROM t AS x"), ("", "SELECT * FROM t"), ("main.t.", "SELECT id, a FROM main.t")]
+# column names of the table besides id: plain, leading underscore, digits / upper case, quoted SQL keywords
+# (the code quotes nothing, so a keyword has to be written quoted by the caller; `_order_by` / `_as_scalars` cannot
+# be keyword filters and are never column names here)
+_NAME_SETS = [("plain", ["a", "b", "c"])] * 5 + [
+    ("underscore", ["_deleted", "_rev", "name"]), ("underscore", ["_", "__x", "_1"]), ("underscore", ["_id", "grp", "_order"]),
+    ("case-digit", ["A1", "Name", "x_y"]), ("case-digit", ["ID2", "aB", "c9"]),
+    ("quoted", ['"order"', '"group"', '"select"']), ("underscore", ["_as", "_order_by_", "_as_scalars2"]),
+]
+_PREFIXES = ["", "", "", "t.", "x."]
+_BIG_SIZES = [10, 999, 1000, 1001, 2500]
+
+
+def _from_text(rng, pfx, names):
+    cols = ", ".join(pfx + n for n in ["id"] + names)
+    if pfx == "x.":
+        return "SELECT %s FROM t AS x" % cols
+    r = rng.random() if rng is not None else 1.0
+    if r < 0.15:
+        return "SELECT * FROM t"
+    if r < 0.3:
+        return "SELECT %s FROM t " % cols        # trailing blank as in the repo's tests
+    return "SELECT %s FROM t" % cols
+
+
+def mk_scenario(call, rows=(), names=("a", "b", "c"), pfx="", **kw):
+    s = {"v": 0, "pct": 0, "from": _from_text(None, pfx, list(names)), "group": None, "dorder": None, "corder": None,
+         "scal": None, "pfx": pfx, "names": list(names), "call": call, "rows": [list(r) for r in rows]}
+    s.update(kw)
+    return s
 
 
 def _case_op(rng, op):
@@ -876,20 +967,27 @@ def _case_op(rng, op):
     return "".join(c.lower() if rng.random() < 0.5 else c for c in op)
 
 
-_CTX = {"pool": None}        # cells of the scenario's table, by column letter (conditions that hit rows)
+# the scenario being generated: column expressions, which of them holds integers, cells by column (conditions
+# that hit rows)
+_CTX = {"fields": ["a", "b", "c"], "intcol": "a", "pool": {}}
+
+
+def _g_field(rng):
+    return rng.choice(_CTX["fields"])
 
 
 def _g_value(rng, field, allow_none=True):
     r = rng.random()
     if allow_none and r < 0.12:
         return None
-    pool = (_CTX["pool"] or {}).get(field[-1])
+    pool = _CTX["pool"].get(field)
     if pool and rng.random() < 0.55:
         v = rng.choice(pool)
         if v is not None:
             return v
-    pool_first = _INTS if field.endswith("a") else _TEXTS
-    pool_other = _TEXTS if field.endswith("a") else _INTS
+    ints_first = field == _CTX["intcol"]
+    pool_first = _INTS if ints_first else _TEXTS
+    pool_other = _TEXTS if ints_first else _INTS
     return rng.choice(pool_first if rng.random() < 0.8 else pool_other)
 
 
@@ -898,18 +996,29 @@ def _g_list(rng, field):
     return [_g_value(rng, field) for _ in range(n)]
 
 
-def _g_set(rng, field):
+def _g_big_list(rng, field, n):
+    """n values incl. duplicates, about 40% of the range present, cells of the table, sometimes NULL"""
+    vals = [rng.randrange(2 * n) for _ in range(n)]
+    for v in _CTX["pool"].get(field, []):
+        if v is not None and rng.random() < 0.5:
+            vals[rng.randrange(n)] = v
+    if rng.random() < 0.3:
+        vals[rng.randrange(n)] = None
+    return vals
+
+
+def _g_set(rng, field, vals=None):
     for _ in range(5):
-        s = set(_g_list(rng, field))
+        s = set(_g_list(rng, field) if vals is None else vals)
         order = list(s)
-        if list(set(order)) == order:        # the order survives rebuilding the set from the line
-            return order
+        if list(set(order)) == order or vals is not None:   # the order survives rebuilding the set from the line
+            return order                                     # (otherwise the adapter iterates in the written order)
     return []
 
 
-def _g_bad_leaf(rng, pfx):
+def _g_bad_leaf(rng):
     """a condition whose construction fails (ValueError / AttributeError)"""
-    f = pfx + rng.choice(_FIELDS)
+    f = _g_field(rng)
     k = rng.randrange(6)
     if k == 0:
         return ("T", f, rng.choice(["==", "<>", "IS", "BETWEEN", "", "NOT  IN", " =", "= ", "IN ", "NOT", "ISNULL", "~"]),
@@ -927,9 +1036,9 @@ def _g_bad_leaf(rng, pfx):
     return ("B", rng.randrange(56))
 
 
-def _g_unbindable_leaf(rng, pfx):
+def _g_unbindable_leaf(rng):
     """accepted by the constructors, refused by sqlite3 when the parameters are bound"""
-    f = pfx + rng.choice(_FIELDS)
+    f = _g_field(rng)
     k = rng.randrange(3)
     if k == 0:
         return ("T", f, rng.choice(["=", "!="]), ("Z", _g_set(rng, f)))          # a set is bound as one parameter
@@ -938,8 +1047,8 @@ def _g_unbindable_leaf(rng, pfx):
     return ("P", f, ("Z", _g_set(rng, f)))
 
 
-def _g_leaf(rng, pfx):
-    f = pfx + rng.choice(_FIELDS)
+def _g_leaf(rng):
+    f = _g_field(rng)
     k = rng.randrange(12)
     if k <= 2:
         return ("T", f, rng.choice(_OPS_CMP), ("S", _g_value(rng, f, False)))
@@ -962,11 +1071,9 @@ def _g_leaf(rng, pfx):
     return ("T", f, rng.choice(_OPS_CMP), ("S", _g_value(rng, f, False)))
 
 
-def _g_kw(rng, pfx, n):
-    names = rng.sample(_FIELDS, min(n, 3))
+def _g_kw(rng, n):
     out = []
-    for nm in names:
-        f = pfx + nm
+    for f in rng.sample(_CTX["fields"], min(n, len(_CTX["fields"]))):
         if rng.random() < 0.7:
             out.append((f, ("S", _g_value(rng, f))))
         else:
@@ -974,13 +1081,13 @@ def _g_kw(rng, pfx, n):
     return out
 
 
-def _g_cond(rng, pfx, depth=0):
+def _g_cond(rng, depth=0):
     if depth < 2 and rng.random() < (0.22 if depth == 0 else 0.12):
         n = rng.choice([0, 1, 2, 2, 3])
-        cs = [_g_cond(rng, pfx, depth + 1) for _ in range(n)]
-        kw = _g_kw(rng, pfx, rng.choice([0, 0, 1, 2, 3]))
+        cs = [_g_cond(rng, depth + 1) for _ in range(n)]
+        kw = _g_kw(rng, rng.choice([0, 0, 1, 2, 3]))
         return ("O", cs, kw)
-    return _g_leaf(rng, pfx)
+    return _g_leaf(rng)
 
 
 def _insert_somewhere(rng, args, leaf):
@@ -996,57 +1103,126 @@ def _insert_somewhere(rng, args, leaf):
         args.insert(rng.randint(0, len(args)), leaf)
 
 
-def _g_rows(rng, nmax):
-    rows = []
-    for i in range(rng.choice([0, 1, 2] + list(range(3, nmax + 1)) * 2)):
-        rid = i + 1 if rng.random() < 0.8 else i + 1 + 10 * rng.randrange(3)
-        rows.append([rid + 100 * 0, _g_value(rng, "a"), _g_value(rng, "b"), _g_value(rng, "c")])
-    ids = sorted(set(r[0] for r in rows))
-    return [[i] + r[1:] for i, r in zip(ids, rows)]
+def _g_rows(rng, nmax, gen_cell):
+    n = rng.choice([0, 1, 2] + list(range(3, nmax + 1)) * 2)
+    ids, cur = [], 0
+    for _ in range(n):
+        cur += 1 if rng.random() < 0.8 else 1 + 10 * rng.randrange(1, 3)
+        ids.append(cur)
+    return [[i] + [gen_cell(k) for k in range(3)] for i in ids]
 
 
-def _g_order(rng, pfx):
-    r = rng.random()
-    if r < 0.3:
-        return None
+def _g_spec(rng, pfx, names):
     keys = []
-    if r > 0.55:
-        for col in rng.sample(_FIELDS, rng.choice([1, 1, 2])):
+    if rng.random() < 0.55:
+        for col in rng.sample(names, rng.choice([1, 1, 2])):
             keys.append((pfx + col, rng.random() < 0.4))
     keys.append((pfx + "id", rng.random() < 0.4))      # the unique id makes the requested order total
     return keys
 
 
-def _g_scenario(rng, tier, malformed):
+def _g_orders(rng, pfx, names):
+    """(default ORDER BY of the method, `_order_by` of the call)"""
+    r = rng.random()
+    if r < 0.22:
+        return None, None
+    if r < 0.42:
+        return _g_spec(rng, pfx, names), None
+    if r < 0.67:
+        return None, ("S", _g_spec(rng, pfx, names))
+    if r < 0.84:
+        return _g_spec(rng, pfx, names), ("S", _g_spec(rng, pfx, names))      # the call overrides the default
+    if r < 0.94:
+        return _g_spec(rng, pfx, names), ("V", None)                           # _order_by=None cancels the default
+    return None, ("V", None)
+
+
+def _g_scenario(rng, tier, malformed, big=0):
     """malformed: exactly one condition whose construction fails (which exception wins among several depends on
-    the evaluation order of the caller's own expression) and/or conditions that sqlite3 refuses to bind"""
-    big = tier != "quick"
-    pfx, frm = rng.choice(_FROMS)
-    if pfx == "main.t.":
-        pfx, frm = "", "SELECT id, a, b, c FROM t"
-    rows = _g_rows(rng, 8 if big else 6)
-    _CTX["pool"] = {c: [r[i + 1] for r in rows] for i, c in enumerate("abc")}
-    ncond = rng.choice([0, 1, 1, 1, 2, 2, 3] + ([4, 5] if big else []))
-    args = [_g_cond(rng, pfx) for _ in range(ncond)]
-    kw = _g_kw(rng, pfx, rng.choice([0, 0, 0, 1, 1, 2, 3]))
+    the evaluation order of the caller's own expression), conditions that sqlite3 refuses to bind, `_order_by`
+    that is not a text.  big: one IN / NOT IN / = / != condition over that many values."""
+    thorough = tier != "quick"
+    kind, names = rng.choice(_NAME_SETS)
+    names = list(names)
+    pfx = rng.choice(_PREFIXES)
+    fields = [pfx + n for n in names]
+    _CTX.update(fields=fields, intcol=fields[0], pool={})
+
+    def cell(k):
+        if big and k == 0:
+            return None if rng.random() < 0.15 else rng.randrange(2 * big)
+        return _g_value(rng, fields[k])
+    rows = _g_rows(rng, 8 if thorough or big else 6, cell)
+    _CTX["pool"] = {f: [r[i + 1] for r in rows] for i, f in enumerate(fields)}
+    ncond = rng.choice([0, 1, 1, 1, 2, 2, 3] + ([4, 5] if thorough else []))
+    if big:
+        ncond = rng.choice([0, 0, 1])
+    args = [_g_cond(rng) for _ in range(ncond)]
+    kw = _g_kw(rng, rng.choice([0, 0, 0, 1, 1, 2, 3]))
+    if big:
+        f = fields[0]
+        vals = _g_big_list(rng, f, big)
+        shape = rng.randrange(6)
+        neg = rng.random() < 0.6
+        if shape == 0:
+            leaf = ("T", f, _case_op(rng, "NOT IN" if neg else "IN"), ("L", vals))
+        elif shape == 1:
+            leaf = ("T", f, "!=" if neg else "=", ("L", vals))
+        elif shape == 2:
+            leaf = ("T", f, "NOT IN" if neg else "IN", ("Z", _g_set(rng, f, vals)))
+        elif shape == 3:
+            leaf = ("P", f, ("L", vals))
+        elif shape == 4:
+            leaf = ("O", [("T", f, "NOT IN" if neg else "IN", ("L", vals)), _g_leaf(rng)], [])
+        else:
+            leaf = None
+            kw = [(k, a) for k, a in kw if k != f] + [(f, ("L", vals))]
+        if leaf is not None:
+            args.insert(rng.randint(0, len(args)), leaf)
+    dorder, corder = _g_orders(rng, pfx, names)
     if malformed:
         r = rng.random()
-        if r < 0.45 or r > 0.8:
+        if r < 0.4 or r > 0.8:
             for _ in range(rng.choice([1, 1, 2])):
-                _insert_somewhere(rng, args, _g_unbindable_leaf(rng, pfx))
+                _insert_somewhere(rng, args, _g_unbindable_leaf(rng))
             if kw and rng.random() < 0.3:
                 kw[0] = (kw[0][0], ("Z", _g_set(rng, kw[0][0])))
-        if r >= 0.45:
-            _insert_somewhere(rng, args, _g_bad_leaf(rng, pfx))
+        if 0.4 <= r < 0.9:
+            _insert_somewhere(rng, args, _g_bad_leaf(rng))
+        if r >= 0.9 or rng.random() < 0.1:
+            corder = ("V", rng.choice([5, 0, -1]))                              # " ORDER BY " + 5: TypeError
     for _ in range(rng.choice([0, 0, 0, 1, 2])):
         args.insert(rng.randint(0, len(args)), None)
-    return {"v": rng.randrange(1024), "pct": 0, "from": frm, "group": None, "order": _g_order(rng, pfx),
-            "call": {"args": args, "kw": kw}, "cols": [pfx + c for c in _BASE_COLS], "rows": rows}
+    group = None
+    if rng.random() < 0.06:
+        group = pfx + "id"                                                       # one group per row: the same rows
+    return {"v": rng.randrange(1024), "pct": 0, "from": _from_text(rng, pfx, names), "group": group, "dorder": dorder,
+            "corder": corder, "scal": rng.choice([None, None, 0, 1]), "pfx": pfx, "names": names,
+            "call": {"args": args, "kw": kw}, "rows": rows}
+
+
+def _rename_fields(call, s):
+    """the same call on the columns of scenario s (k-th column of its own scenario -> k-th column of s)"""
+    own = _CTX["fields"]
+    new = [s["pfx"] + n for n in s["names"]]
+    m = dict(zip(own, new))
+
+    def rc(c):
+        if c is None or c[0] == "B":
+            return c
+        if c[0] == "T":
+            return ("T", m.get(c[1], c[1]), c[2], c[3])
+        if c[0] == "P":
+            return ("P", m.get(c[1], c[1]), c[2])
+        if c[0] == "A":
+            return ("A", c[1], m.get(c[2], c[2]), c[3])
+        return ("O", [rc(x) for x in c[1]], [(m.get(k, k), a) for k, a in c[2]])
+    return {"args": [rc(c) for c in call["args"]], "kw": [(m.get(k, k), a) for k, a in call["kw"]]}
 
 
 def _lines_of(s, rng=None):
     lines = [enc_line("sql", s), enc_line("params", s), enc_line("ids", dict(s, method="list"))]
-    extra = ["one", "one_or_none", "tone_or_none"]
+    extra = ["one", "one_or_none"] + (["tone_or_none"] if s["names"] == ["a", "b", "c"] else [])
     if rng is not None:
         extra = [m for m in extra if rng.random() < 0.4]
     for m in extra:
@@ -1076,10 +1252,29 @@ def _fixed_scenarios():
         [None, ("P", "a", ("S", 1)), None],
     ]
     for i, cs in enumerate(conds):
-        for order in (None, [("id", True)], [("b", False), ("id", False)]):
+        for dorder, corder in ((None, None), ([("id", True)], None), (None, ("S", [("b", False), ("id", False)])),
+                               ([("id", True)], ("V", None))):
             for kw in ([], [("c", ("S", None))], [("c", ("S", "%")), ("a", ("L", [-3, 2]))]):
-                yield {"v": (i * 37 + len(kw) * 5) % 1024, "pct": 0, "from": "SELECT id, a, b, c FROM t", "group": None,
-                       "order": order, "call": {"args": list(cs), "kw": list(kw)}, "cols": list(_BASE_COLS), "rows": rows}
+                yield mk_scenario({"args": list(cs), "kw": list(kw)}, rows, v=(i * 37 + len(kw) * 5) % 1024,
+                                  dorder=dorder, corder=corder, scal=[None, 0, 1][i % 3])
+    # keyword filters on columns whose names look like options, digits, upper case, quoted keywords
+    for kind, names in _NAME_SETS[5:]:
+        rows2 = [[1, 0, "x", None], [2, 1, "x", "y"], [3, None, "", "y"], [4, 0, None, "Y"]]
+        for k in range(3):
+            for val in (("S", 0), ("S", None), ("S", "y"), ("L", [0, "x"]), ("L", [])):
+                for pfx in ("", "t."):
+                    call = {"args": [], "kw": [(pfx + names[k], val)]}
+                    yield mk_scenario(call, rows2, names=names, pfx=pfx, v=k * 91 % 1024, scal=[None, 1][k % 2],
+                                      corder=[None, ("S", [(pfx + "id", True)])][k % 2])
+                    call = {"args": [("O", [], [(pfx + names[k], val), (pfx + names[(k + 1) % 3], ("S", "x"))])],
+                            "kw": [(pfx + names[(k + 2) % 3], ("S", "y"))]}
+                    yield mk_scenario(call, rows2, names=names, pfx=pfx, v=k * 57 % 1024)
+
+
+def _long_list_scenarios(rng, sizes, per_size):
+    for n in sizes:
+        for _ in range(per_size):
+            yield _g_scenario(rng, "quick", False, big=n)
 
 
 def gen_cases(rng, tier):
@@ -1087,45 +1282,71 @@ def gen_cases(rng, tier):
         yield _mk_case(s, "fixed-shapes")
     if tier != "quick":                      # exhaustive small scope: every operation x every kind of value
         yield from search_cases(rng, tier)
-    n = 6000 if tier == "quick" else 120000
+    for s in _long_list_scenarios(rng, _BIG_SIZES, 8 if tier == "quick" else 60):
+        yield _mk_case(s, "long-list", rng)
+    n = 6000 if tier == "quick" else 110000
     for i in range(n):
         r = rng.random()
         if r < 0.70:
             yield _mk_case(_g_scenario(rng, tier, False), "valid", rng)
-        elif r < 0.85:
+        elif r < 0.82:
             yield _mk_case(_g_scenario(rng, tier, True), "malformed", rng)
+        elif r < 0.85:
+            # one SqlMethod object, several different calls one after the other (also after a failed one)
+            s1 = _g_scenario(rng, tier, rng.random() < 0.25)
+            lines = _lines_of(s1, rng)
+            for _ in range(rng.choice([1, 2])):
+                s2 = _g_scenario(rng, tier, False)
+                s2.update({k: s1[k] for k in ("from", "group", "dorder", "pfx", "names", "v", "rows")})
+                s2["corder"] = s2["corder"] if s2["corder"] is None or s2["corder"][0] == "V" else \
+                    ("S", _g_spec(rng, s1["pfx"], s1["names"]))
+                s2["call"] = _rename_fields(s2["call"], s1)
+                lines += _lines_of(s2, rng)
+            yield {"lines": lines, "meta": {"kind": "same-method-object"}}
         elif r < 0.93:
             s = _g_scenario(rng, tier, rng.random() < 0.2)
             s["pct"] = 1
-            s["group"] = rng.choice([None, None, "a", ""])
+            s["group"] = rng.choice([None, None, s["pfx"] + s["names"][0], ""])
             yield {"lines": [enc_line("sql", s), enc_line("params", s)], "meta": {"kind": "percent-s-flavour"}}
         else:
             s = _g_scenario(rng, tier, False)
-            s["group"] = rng.choice(["a", "", "b, c", "id"])
-            s["order"] = None if rng.random() < 0.5 else s["order"]
+            s["group"] = rng.choice([s["pfx"] + s["names"][0], "", ", ".join(s["pfx"] + n for n in s["names"][1:]),
+                                     s["pfx"] + "id"])
             yield {"lines": [enc_line("sql", s), enc_line("params", s)], "meta": {"kind": "group-by-text"}}
 
 
 def search_cases(rng, tier):
-    """directed search: every operation x every kind of value on one small table, singly, negated in an OR
-    group and as keyword, then the ordinary stream"""
+    """directed search. First long value lists (boundaries of any chunking of IN lists), then keyword filters on
+    unusual column names, then every operation x every kind of value on one small table (singly, in an OR group,
+    with a keyword filter, between None arguments), then the ordinary stream."""
+    for n in (1001, 2500, 1000, 999, 10, 2000, 1500, 3001):
+        for op in ("NOT IN", "IN", "!=", "="):
+            vals = list(range(0, 2 * n, 2))                      # even numbers; odd ones and NULL are outside
+            rows = [[1, 0, "x", None], [2, 1, "x", None], [3, 2 * n - 2, "y", None], [4, 2 * n - 1, "y", None],
+                    [5, None, "x", None], [6, n if n % 2 == 0 else n + 1, "z", None], [7, 2 * n + 5, "z", None]]
+            leaf = ("T", "a", op, ("L", vals))
+            for args, kw in (([leaf], []), ([("O", [leaf, ("T", "b", "=", ("S", "z"))], [])], []),
+                             ([leaf], [("b", ("S", "x"))]), ([("T", "a", op, ("Z", vals))] if "IN" in op else [leaf], [])):
+                yield _mk_case(mk_scenario({"args": args, "kw": kw}, rows, v=rng.randrange(1024),
+                                           dorder=[("id", False)]), "search-long-list")
+            yield _mk_case(mk_scenario({"args": [], "kw": [("a", ("L", vals + [None, 1]))]}, rows,
+                                       v=rng.randrange(1024)), "search-long-list")
+    for s in list(_fixed_scenarios())[-400:]:
+        yield _mk_case(s, "search-names")
     rows = [[1, None, None, None], [2, 1, "a", "A"], [3, "1", "a%", ""], [4, 2, "b", "it's"]]
     vals = [("S", None), ("S", 1), ("S", "a"), ("S", "a%"), ("L", []), ("L", [1]), ("L", [None, "a"]), ("Z", []), ("Z", [1])]
     ops = ["=", "!=", "<", ">", "<=", ">=", "IN", "NOT IN", "IS NULL", "IS NOT NULL", "LIKE", "NOT LIKE", "in", "=="]
-    for f in _FIELDS:
+    for f in ("a", "b", "c"):
         for op in ops:
             for a in vals:
                 leaf = ("T", f, op, a)
                 for args, kw in (([leaf], []), ([("O", [leaf, ("T", "a", "=", ("S", 2))], [])], []), ([leaf], [("b", ("S", "a"))]),
                                  ([None, leaf, ("P", "c", ("S", ""))], [])):
-                    s = {"v": rng.randrange(1024), "pct": 0, "from": "SELECT id, a, b, c FROM t", "group": None,
-                         "order": [("id", False)], "call": {"args": args, "kw": kw}, "cols": list(_BASE_COLS), "rows": rows}
-                    yield _mk_case(s, "search-op-x-value")
-    for f in _FIELDS:
+                    yield _mk_case(mk_scenario({"args": args, "kw": kw}, rows, v=rng.randrange(1024),
+                                               dorder=[("id", False)]), "search-op-x-value")
+    for f in ("a", "b", "c"):
         for a in vals:
-            s = {"v": rng.randrange(1024), "pct": 0, "from": "SELECT id, a, b, c FROM t", "group": None, "order": None,
-                 "call": {"args": [], "kw": [(f, a)]}, "cols": list(_BASE_COLS), "rows": rows}
-            yield _mk_case(s, "search-kw")
+            yield _mk_case(mk_scenario({"args": [], "kw": [(f, a)]}, rows, v=rng.randrange(1024)), "search-kw")
 
 
 # ------------------------------------------------------------------ shrinking
@@ -1138,7 +1359,16 @@ def _smaller_args(a):
         if isinstance(v, int) and v not in (0, 1):
             yield ("S", 1)
     else:
-        for i in range(len(a[1])):
+        n = len(a[1])
+        if n > 8:                                    # long lists: halves, then quarters
+            for k in (2, 4, 8):
+                step = (n + k - 1) // k
+                for i in range(0, n, step):
+                    yield (a[0], a[1][:i] + a[1][i + step:])
+                    yield (a[0], a[1][i:i + step])
+            if n > 64:
+                return
+        for i in range(n):
             yield (a[0], a[1][:i] + a[1][i + 1:])
 
 
@@ -1182,10 +1412,18 @@ def shrink(case):
         yield mk(dict(s, call={"args": call["args"][:i] + call["args"][i + 1:], "kw": call["kw"]}))
     for i in range(len(call["kw"])):
         yield mk(dict(s, call={"args": call["args"], "kw": call["kw"][:i] + call["kw"][i + 1:]}))
-    if s["order"] is not None:
-        yield mk(dict(s, order=None))
-        if len(s["order"]) > 1:
-            yield mk(dict(s, order=s["order"][1:]))
+    if s["corder"] is not None:
+        yield mk(dict(s, corder=None))
+        if s["corder"][0] == "S" and len(s["corder"][1]) > 1:
+            yield mk(dict(s, corder=("S", s["corder"][1][1:])))
+    if s["dorder"] is not None:
+        yield mk(dict(s, dorder=None))
+        if len(s["dorder"]) > 1:
+            yield mk(dict(s, dorder=s["dorder"][1:]))
+    if s["scal"] is not None:
+        yield mk(dict(s, scal=None))
+    if s["group"] is not None:
+        yield mk(dict(s, group=None))
     if s["v"]:
         yield mk(dict(s, v=0))
         for b in range(10):
@@ -1225,16 +1463,38 @@ def nontrivial(case, replies):
     return bool([c for c in call["args"] if c is not None] or call["kw"])
 
 
+def _size_bucket(n):
+    return str(n) if n <= 2 else ("3-9" if n < 10 else ("10-998" if n < 999 else (str(n) if n <= 1001 else ">1001")))
+
+
 def tags(case, replies):
     yield case.get("meta", {}).get("kind", "?")
     cmd, s = dec_line(case["lines"][0])
     call = s["call"]
     n = len([c for c in call["args"] if c is not None]) + len(call["kw"])
     yield "conditions:%d" % min(n, 4)
+    yield "columns:" + dict((tuple(ns), k) for k, ns in _NAME_SETS).get(tuple(s["names"]), "other") + \
+        (":qualified" if s["pfx"] else "")
+    yield "order:default=%s,call=%s" % ("yes" if s["dorder"] else "no",
+                                        "absent" if s["corder"] is None else ("text" if s["corder"][0] == "S" else
+                                                                               ("None" if s["corder"][1] is None else "not-a-text")))
+    yield "as_scalars:" + ("absent" if s["scal"] is None else str(s["scal"]))
+    if s["group"]:
+        yield "group-by"
     if any(c is None for c in call["args"]):
         yield "none-argument"
     if call["kw"]:
         yield "kwargs"
+    for k, a in call["kw"]:
+        bare = k[len(s["pfx"]):]
+        if bare.startswith("_"):
+            yield "kw-name:underscore"
+        elif bare.startswith('"'):
+            yield "kw-name:quoted"
+        elif bare != bare.lower() or any(ch.isdigit() for ch in bare):
+            yield "kw-name:case-digit"
+        if a[0] != "S":
+            yield "list-size:" + _size_bucket(len(a[1]))
     for c in call["args"]:
         if c is not None and c[0] == "O":
             yield "or-group:%d" % min(len(c[1]) + len(c[2]), 3)
@@ -1244,9 +1504,12 @@ def tags(case, replies):
                 a = l[3]
                 yield "op:" + op
                 if a[0] != "S":
-                    yield "%s:%s:%d" % ("in-list" if op in ("IN", "NOT IN", "=", "!=") else "list", a[0], min(len(a[1]), 2))
+                    yield "%s:%s" % ("in-list" if op in ("IN", "NOT IN", "=", "!=") else "list", a[0])
+                    yield "list-size:" + _size_bucket(len(a[1]))
                 elif a[1] is None and op in ("=", "!="):
                     yield "eq-none"
+            elif l[0] == "P" and l[2][0] != "S":
+                yield "list-size:" + _size_bucket(len(l[2][1]))
             elif l[0] in ("A", "B"):
                 yield "malformed:" + l[0]
     for line, rep in zip(case["lines"], replies):
@@ -1256,36 +1519,46 @@ def tags(case, replies):
             yield "rows-returned:%d" % min(len(rep.split()) - 1, 3)
 
 
-RULE = ("a case = one scenario (table of 0-6 rows [thorough: 0-8] over NULL/ints/texts, 0-3 [0-5] positional conditions incl. OR "
-        "groups nested up to 2, None arguments, 0-3 keyword filters, optional ORDER BY) asked as sql / params / ids(list) "
-        "and some of ids(one | one_or_none | SqlMethodT.one_or_none); non-trivial = at least one condition or keyword "
-        "filter; distinct by protocol text")
+RULE = ("a case = one scenario: table t(id, 3 columns named plainly / with leading underscores / digits and upper case / as quoted "
+        "SQL keywords, optionally written qualified) of 0-6 rows [thorough: 0-8] over NULL/ints/texts; 0-3 [0-5] positional "
+        "conditions incl. OR groups nested up to 2, None arguments, 0-3 keyword filters; default ORDER BY and/or _order_by "
+        "(text, None, not a text), _as_scalars; value lists of 0-4 and of 10/999/1000/1001/2500 values (duplicates, NULLs) - asked "
+        "as sql / params / ids(list) and some of ids(one | one_or_none | SqlMethodT.one_or_none) on ONE SqlMethod object; 3% "
+        "of the cases continue with other calls on the same object; non-trivial = at least one condition or keyword filter; "
+        "distinct by protocol text")
 TRUSTED = ["sqlite3 / SQLite 3.40.1 (evaluation of the generated statement; refusal to bind list/tuple/set)",
            "str.upper on ASCII operator names", "CPython set iteration order (PYTHONHASHSEED=0 set by ./check)"]
-ASSUMPTIONS = ["SQLite evaluates the text render(w) as the model's semW says (modelled, not verified; exercised by every ids line "
-               "on a real in-memory database)",
+ASSUMPTIONS = ["SQLite evaluates the text render(w) as the model's semW says and orders rows as the model's rowBefore says "
+               "(modelled, not verified; exercised by every ids line on a real in-memory database)",
                "columns without type affinity; values are None, int (64 bit) or str without NUL; operator names are ASCII; "
-               "field names, SELECT/GROUP BY/ORDER BY texts contain no placeholder character",
+               "column expressions are what the caller would write in SQL (a keyword as column name is written quoted)",
+               "the caller's own texts contain no placeholder character: decidable predicate `clean`, evaluated by the driver on "
+               "every request (hypothesis of C15.placeholders; never false on generated input)",
                "raw string conditions and '=' with a set are out of domain (a set is refused by sqlite3 as a parameter: "
-               "generated only in the malformed stream)"]
+               "generated only in the malformed stream); GROUP BY is text only (rows are computed only for GROUP BY id)"]
 LEVEL_TEXT = ("Proved in Lean for all calls, rows and tables, on the model that the driver executes: the value of the generated "
               "WHERE clause under SQL three-valued logic equals the AND of what the caller's conditions mean (=/!= with None "
-              "-> IS [NOT] NULL, with a list/tuple -> [NOT] IN, empty IN false / empty NOT IN true, OR groups incl. nested "
-              "and keyword members, None arguments ignored, keyword filters = equality in any order) [selects_eval, selects, "
-              "returns_exactly, satisfied_iff, none_ignored, kwargs_order, in_semantics, methods]; one placeholder mark per "
-              "bound value and every clause consumes exactly the values of its own marks, left to right [placeholders, "
-              "placeholders_in_order]; the text does not change by one character when only values change [values_only_bound, "
-              "noninterference]; no failure other than ValueError/AttributeError of a constructor or a refused parameter "
+              "-> IS [NOT] NULL, with a list/tuple -> [NOT] IN of any length, empty IN false / empty NOT IN true, OR groups incl. "
+              "nested and keyword members, None arguments ignored, every keyword argument except exactly _order_by/_as_scalars "
+              "(names read from the source) is an equality filter, in any order) [selects_eval, selects, satisfied_iff, "
+              "none_ignored, kwargs_order, option_keys, in_semantics]; what run returns: exactly the satisfying rows, permuted "
+              "into the ORDER BY in effect (_order_by overrides, None cancels the default) under a model of SQLite's value order "
+              "proved to be a strict total order, then list/one/one_or_none [returns_exactly, value_order, methods]; one "
+              "placeholder mark per bound value under a decidable cleanliness predicate checked on every request, every clause "
+              "consuming exactly the values of its own marks left to right [placeholders, placeholders_in_order]; the text does "
+              "not change by one character when only values change [values_only_bound, noninterference]; no failure other than "
+              "ValueError/AttributeError of a constructor, a refused parameter or TypeError for a non-text _order_by "
               "[only_rejections]; both clause tables and all fixed text pieces, regenerated from ak/mtd_sql.py on every run, "
-              "spell the SQL the AST nodes mean [clauses_ok, consts_ok]. Model = code (SQL text, parameter list, returned ids "
-              "for list/all/one/one_or_none/SqlMethodT, exception classes) by a differential run against the real SqlMethod on "
-              "a real in-memory sqlite3; that SQLite evaluates the text as the model's 3-valued semantics says rests on that "
-              "run only (modelled, not verified).")
+              "spell the SQL the AST nodes mean [clauses_ok, consts_ok]. Model = code (SQL text, number of marks, parameter "
+              "list, returned ids for list/all/one/one_or_none/SqlMethodT, exception classes, reuse of one SqlMethod object) by "
+              "a differential run against the real SqlMethod on a real in-memory sqlite3; that SQLite evaluates the text and "
+              "orders rows as the model says rests on that run only (modelled, not verified).")
 LEVEL_NOTE = ("Trusted: Lean kernel (axioms propext, Classical.choice, Quot.sound), translator/adapter/oracle in harness/c15.py, "
-              "sampled correspondence (rows over NULL/ints/texts with quotes, %, _, SQL fragments; all 12 operations x value "
-              "kinds; malformed stream limited to one failing constructor per call), sqlite3/SQLite 3.40.1, str.upper on ASCII. "
-              "Out of the model: raw string conditions, column affinity, floats/blobs, ints beyond 64 bit, NUL characters, "
-              "GROUP BY semantics (text only), which exception wins when several conditions are malformed.")
-TECHNIQUE = ("Lean 4: WHERE-clause AST with 3-valued semantics, mutual induction over the nested condition tree; translator for "
-             "clause tables and text constants; differential run against SqlMethod + sqlite3; independent 3VL oracle in Python "
-             "with marker values for the bound-parameter checks")
+              "sampled correspondence (rows over NULL/ints/texts with quotes, %, _, backslashes, SQL fragments; all 12 operations "
+              "x value kinds; list lengths up to 2500; column names incl. leading underscore; malformed stream limited to one "
+              "failing constructor per call), sqlite3/SQLite 3.40.1, str.upper on ASCII. Out of the model: raw string "
+              "conditions, column affinity, floats/blobs, ints beyond 64 bit, NUL characters, GROUP BY semantics (text only), "
+              "which exception wins when several conditions are malformed, _order_by='' (dangling ORDER BY).")
+TECHNIQUE = ("Lean 4: WHERE-clause AST with 3-valued semantics, mutual induction over the nested condition tree, insertion-sort "
+             "ORDER BY model; translator for clause tables, text constants and option keys; differential run against SqlMethod + "
+             "sqlite3; independent 3VL oracle in Python with marker values for the bound-parameter checks")
